@@ -35,7 +35,7 @@ class FakeReactor(task.Clock):
 
 class AppCli(_Rec, vcommand.VNCDoCLIClient):
     def _fill(self, x, y, w, h, color):
-        rfb.RFBClient.fillRectangle(self, x, y, w, h, color)
+        super(_Rec, self).fillRectangle(x, y, w, h, color)
 
     def _captureSave(self, data, fp, *args, **kw):
         r = super()._captureSave(data, fp, *args, **kw)
@@ -116,6 +116,12 @@ class Vncdo:
             return ((m, (), {}), (defer.passthru, (), {}))
         for i, pair in enumerate(cbs[:-1]):
             new += [marker("start:%d" % i), pair, marker("finish:%d" % i)]
+
+        def failed(f):
+            # a command raised: Twisted skips the remaining callbacks; say so once, with the class of the exception
+            trace.append(("cb", "chainfailed:" + exc_class(f.value)))
+            return f
+        new.append(((defer.passthru, (), {}), (failed, (), {})))
         new.append(cbs[-1])
         d.callbacks[:] = new
 
@@ -175,6 +181,9 @@ class Vncdo:
         return ticks(min(ts)) if ts else None
 
     def close(self):
+        if self.factory is not None:
+            # a failed chain ends in a Failure nobody consumes; Twisted would report it at garbage collection (after the verdict)
+            self.factory.deferred.addErrback(lambda f: None)
         for p_ in self._patches:
             p_.stop()
 
